@@ -1,4 +1,5 @@
 import SspModel.Real
+import SspModel.Lemmas.Bridge.Sched
 import SspModel.Model.Validate
 import SspModel.Model.Schedule
 import SspModel.Model.IFMR
@@ -152,6 +153,8 @@ theorem rows_at_requested_age (segs : List (ℝ × Bool × ℝ)) (h : convergedF
     rw [ih (by simpa [convergedFlag] using h.2)]
 
 structure Statement : Prop where
+  /-- shape obligations on the extraction loop of both `_evolve` methods (see `Lemmas/Bridge/Sched.lean`) -/
+  source_flag : ∀ x : ℝ, Generated.sched_flag_after_loop x = 1 ∧ Generated.schedbh_flag_after_loop x = 1 ∧ Generated.sched_integrate_first x = 1 ∧ Generated.schedbh_integrate_first x = 1
   invalid : ∀ r : Request ℝ,
     (r.breaks.length ≠ r.nslopes + 1 ∨ r.breaks.length < 2 ∨ increasing r.breaks = false ∨
       (∃ fs, r.fBH = some fs ∧ (fs.length ≠ r.nout ∨ ∃ f ∈ fs, f < 0)) ∨
@@ -164,6 +167,7 @@ structure Statement : Prop where
   ages : ∀ segs : List (ℝ × Bool × ℝ), convergedFlag (segs.map (·.2.1)) = true → solverTimes segs = segs.map (·.1)
 
 theorem C17_partial : Statement where
+  source_flag := fun x => ⟨(Bridge.gen_sched_shape x).2.2.2.2.1, (Bridge.gen_sched_shape x).2.2.2.2.2.2.2.2, (Bridge.gen_sched_shape x).2.1, (Bridge.gen_sched_shape x).2.2.2.2.2.1⟩
   invalid := invalid_rejected
   over_eject := C07.over
   flag := flag_sticky
